@@ -40,6 +40,11 @@ CLAIMED = {
             "FrozenImmutable / NotRejected / is_frozen on every step); in addition every public method and in-place "
             "library function, found by introspection, is probed on an unfrozen twin and on the frozen network and "
             "on subhypergraph results, and TLC checks that whatever changes the twin is rejected."),
+    "C08": ("§4 C08", "the API surface is enumerated by introspection at run time (about 180 callables: xgi functions "
+            "taking a network, view methods / properties / stats in four formats, copy, dual, <<, in_place=False "
+            "variants); each is called on realised TLC-enumerated states of the three classes, returned id "
+            "containers are mutated, and TLC checks that the full projection of the input (order, both tables, "
+            "attributes, next automatic id) is unchanged (Nets!Frame on a Query step)."),
 }
 NOTE = ("Trusted: TLC, the harness projection/adapter (self-tested on every run by corrupting recorded fields), "
         "and the bounded universes listed in the evidence; outside them only random histories.")
